@@ -271,4 +271,95 @@ Proof.
       destruct (o_sd_done o) as [|k]; [lia|]. cbn in Hesc.
       destruct (get th (o_api o)) as [[]|]; cbn in Hesc; try discriminate; cbn; now rewrite N.eqb_refl.
 Qed.
-(*STOP*)
+
+(* ---- one step --------------------------------------------------------------------------------------------------------- *)
+Lemma R4_step s o th e s' : R4 s o -> step s (th, e) = Some s' ->
+  W_C03 (obs_step cs o (th, e)) = false -> escape_C03 o (th, e) = false -> R4 s' (obs_step cs o (th, e)).
+Proof.
+  intros (HRc & HI & HI2) H HW Hesc. split; [eapply Rc_step; eauto|].
+  rewrite obs_step_pre in *. unfold step in H. cbn [fst snd] in H.
+  assert (HRc0 : Rc cs (flush th s) o) by (eapply Rc_sys_same; eauto using sys_same_flush).
+  assert (HI0 : Inv (flush th s) o) by now apply Inv_flush.
+  assert (HI20 : Inv2 (flush th s) o) by now apply Inv2_flush.
+  assert (Hpn : pend (get_thread (flush th s) th) = None).
+  { destruct (flush_thread th s th) as (_ & _ & _ & Ep). rewrite Ep, N.eqb_refl. reflexivity. }
+  split.
+  - apply Inv_refresh. eapply (Inv_core cs (flush th s)); eauto.
+  - apply Inv2_refresh. destruct (own_ev e) eqn:Hev.
+    + rewrite step_core_own in H by exact Hev. eapply Inv2_own; eauto.
+    + eapply Inv2_nonown; eauto.
+Qed.
+
+(* ---- the monitor ------------------------------------------------------------------------------------------------------- *)
+Lemma mon_core s o th e s' : Rc cs s o -> Inv s o -> Inv2 s o -> step_core s th e = Some s' ->
+  escape_C03 o (th, e) = false -> mon_C03 cs o (th, e) = true.
+Proof.
+  intros HRc HI [HB HA] H Hesc. unfold mon_C03. cbn [fst snd].
+  destruct e; try reflexivity; try (destruct (ev_inst o th _); reflexivity).
+  - (* ELaunch *)
+    destruct ok; [|try reflexivity; cbn; destruct (get th (o_th o)); reflexivity].
+    cbn [ev_inst]. rewrite <- (rc_th _ _ _ HRc th).
+    cbn in H. unfold step_own, own_inst in H.
+    destruct (get th (thinst s)) as [i|] eqn:Et; [|discriminate]. destruct (get i (insts s)) as [x|] eqn:Ex; [|discriminate].
+    destruct (pc x) eqn:Ep; try discriminate H.
+    destruct (Nat.ltb 0 (o_sd_done o)) eqn:Hsd; [|reflexivity]. apply Nat.ltb_lt in Hsd.
+    destruct (rc_inst _ _ _ HRc i x Ex) as (xo & Hxo & _).
+    destruct (HA Hsd i x xo Ex Hxo) as [Hm|[Hn|[[H1 H2]|[H1 H2]]]].
+    + rewrite Hm. reflexivity.
+    + unfold nl in Hn. rewrite Ep in Hn. discriminate.
+    + unfold oi_get. rewrite Hxo, H1, H2. apply orb_true_r.
+    + rewrite Ep in H2. discriminate.
+  - (* EShutdownEnd *)
+    destruct (sdend_guard _ _ _ H) as (order & Hdp & Had).
+    pose proof (iv_sd _ _ HI th order Hdp) as Hcur. rewrite Hcur.
+    apply forallb_forall. intros i Hi. apply memN_In in Hi.
+    destruct (all_done_in _ _ _ Had Hi) as (x & Hx & Hd).
+    destruct (rc_inst _ _ _ HRc i x Hx) as (xo & Hxo & Hnm & Hcf & _).
+    pose proof (iv_inst _ _ HI i x xo Hx Hxo) as P. unfold oi_get. rewrite Hxo.
+    pose proof (pi_done _ _ _ P Hd) as Hnl.
+    apply andb_true_iff. split.
+    + rewrite (pi_alive _ _ _ P). destruct (alive x) eqn:Ea; [|reflexivity].
+      pose proof (pi_pc _ _ _ P) as B. rewrite Ea in B. specialize (B eq_refl). rewrite (nl_not_alive _ Hnl) in B. discriminate.
+    + destruct (rc_name _ _ _ HRc _ _ Hcf) as (v & r & Hv & Hr & _ & Hst & _).
+      rewrite Hnm. unfold on_get. rewrite Hr, Hst.
+      destruct (is_running_status (st v)) eqn:Hrun; [|reflexivity]. exfalso.
+      destruct (iv_run _ _ HI _ _ Hv Hrun) as (j & y & Hy & _ & Hdy & Hrp).
+      destruct (memN j order) eqn:Hm.
+      * destruct (all_done_in _ _ _ Had Hm) as (y2 & Hy2 & Hd2). congruence.
+      * destruct (rc_inst _ _ _ HRc j y Hy) as (yo & Hyo & _).
+        unfold escape_C03 in Hesc. cbn [fst snd] in Hesc.
+        pose proof (existsb_false_in _ _ Hesc (j, yo) (get_in _ _ _ Hyo)) as He. cbn in He.
+        unfold snap_of in He. rewrite Hcur, Hm in He. cbn in He.
+        destruct (o_gone yo) eqn:Hg; cbn in He.
+        -- pose proof (pi_gone _ _ _ (iv_inst _ _ HI j y yo Hy Hyo) Hg) as Hgp. rewrite (run_not_gone _ Hrp) in Hgp. discriminate.
+        -- apply negb_false_iff in He. unfold excused in He. apply andb_true_iff in He. destruct He as [_ He].
+           apply negb_true_iff in He. pose proof (begun_false _ _ He) as Hnb.
+           destruct (HB j y Hy) as [(t & Hpt)|(t & Ht)].
+           ++ rewrite Hpt in Hrp. discriminate.
+           ++ apply (Hnb t). now rewrite <- (rc_th _ _ _ HRc t).
+Qed.
+
+Lemma R4_step_mon s o e s' : R4 s o -> step s e = Some s' ->
+  W_C03 (obs_step cs o e) = false -> escape_C03 o e = false -> R4 s' (obs_step cs o e) /\ mon_C03 cs o e = true.
+Proof.
+  destruct e as [th e]. intros HR H HW Hesc. split; [eapply R4_step; eauto|].
+  destruct HR as (HRc & HI & HI2). unfold step in H. cbn [fst snd] in H.
+  eapply (mon_core (flush th s)); eauto.
+  - eapply Rc_sys_same; eauto using sys_same_flush.
+  - now apply Inv_flush.
+  - now apply Inv2_flush.
+Qed.
+End RelC03b.
+
+(* ---- the theorem -------------------------------------------------------------------------------------------------------- *)
+Theorem C03_partial_lemma : forall cs ord evs s,
+  accept (init cs ord) evs = Some s ->
+  W_C03 (final_obs cs evs) = false ->
+  escapes_C03 cs evs = false ->
+  holds_C03 cs evs = true.
+Proof.
+  intros cs ord evs s Hacc HW Hesc. unfold holds_C03.
+  apply (xsim_holds cs ord (R4 cs) (mon_C03 cs) W_C03 escape_C03 (R4_init cs ord) (R4_step_mon cs) (W_C03_mono cs) evs s Hacc HW Hesc).
+Qed.
+Print Assumptions C03_partial_lemma.
+
